@@ -96,6 +96,7 @@ func (c *wsConn) listen(ws *websocket.Conn) {
 	var in []byte
 	var err error
 
+	verifPoint("ws.upgrade")
 	c.ws = ws
 
 	// Loop until an error is returned when reading
@@ -204,6 +205,7 @@ func (c *wsConn) Enqueue(f func()) bool {
 }
 
 func (c *wsConn) enqueue(f func()) {
+	verifActivity()
 	count := len(c.queue)
 	c.queue = append(c.queue, f)
 	// If the queue was empty, the worker is idling
@@ -217,6 +219,7 @@ func (c *wsConn) Send(data []byte) {
 	if c.ws != nil {
 		c.Tracef("<<- %s", data)
 		c.ws.WriteMessage(websocket.TextMessage, data)
+		verifCount("ws.write")
 	}
 }
 
@@ -224,6 +227,7 @@ func (c *wsConn) Reply(data []byte) {
 	if c.ws != nil {
 		c.Tracef("<-- %s", data)
 		c.ws.WriteMessage(websocket.TextMessage, data)
+		verifCount("ws.write")
 	}
 }
 
@@ -657,6 +661,7 @@ func (c *wsConn) removeCount(s *Subscription, direct bool, sent bool, count int,
 func (c *wsConn) setToken(token json.RawMessage, tid string) {
 	c.tid = tid
 
+	verifCount("conn.setToken")
 	if c.token == nil {
 		// No need to revalidate nil token access
 		c.token = token
@@ -683,6 +688,7 @@ func (c *wsConn) outputWorker() {
 		for len(c.queue) > idx {
 			f = c.queue[idx]
 			c.mu.Unlock()
+			verifPoint("conn.run")
 			f()
 			idx++
 			c.mu.Lock()
